@@ -10,29 +10,32 @@ Variable now_year : Z.
 
 Record tstate := { ts_infos : list (token_info F); ts_ui : list uitoken }.
 
-(* ---------- find_location (types.rs:321-345) ---------- *)
-(* returns the start index of the first full match of [pat] found by the non-restarting
-   scan, None otherwise.  [pat = []]: rule_tokens[0] panics as soon as one token is read;
-   with no tokens at all the result is Some 0. *)
+(* ---------- find_location (types.rs:321-348) ---------- *)
+(* The scan keeps start, target = start + rule_idx and rule_idx; a token that does not match
+   restarts it one token after the start of the failed partial match (start + 1), so the loop is
+   the plain search for the first index at which the whole pattern matches.
+   [pat = []]: rule_tokens[0] panics as soon as one token is read; with no tokens at all the
+   result is Some 0. *)
 Definition SITE_EMPTY_PATTERN : N := 2301.
 
-Fixpoint find_location_loop (tokens : list (token_info F)) (pat : list (token F))
-         (rule_idx target start : nat) : res (option nat) :=
+Fixpoint prefix_match (tokens : list (token_info F)) (pat : list (token F)) : bool :=
+  match pat, tokens with
+  | [], _ => true
+  | p :: pr, t :: tr => info_eq_token t p && prefix_match tr pr
+  | _ :: _, [] => false
+  end.
+
+Fixpoint find_location_from (tokens : list (token_info F)) (pat : list (token F)) (start : nat) : option nat :=
   match tokens with
-  | [] => Ok (if Nat.eqb (length pat) rule_idx then Some start else None)
-  | t :: rest =>
-    match nth_opt pat rule_idx with
-    | None => Panic SITE_EMPTY_PATTERN
-    | Some p =>
-      let '(rule_idx', start') :=
-          if info_eq_token t p then (S rule_idx, start) else (O, S target) in
-      if Nat.eqb (length pat) rule_idx' then Ok (Some start')
-      else find_location_loop rest pat rule_idx' (S target) start'
-    end
+  | [] => None
+  | _ :: rest => if prefix_match tokens pat then Some start else find_location_from rest pat (S start)
   end.
 
 Definition find_location (tokens : list (token_info F)) (pat : list (token F)) : res (option nat) :=
-  find_location_loop tokens pat 0 0 0.
+  match pat with
+  | [] => match tokens with [] => Ok (Some O) | _ :: _ => Panic SITE_EMPTY_PATTERN end
+  | _ :: _ => Ok (find_location_from tokens pat 0)
+  end.
 
 (* ---------- update_token_variables (variable/mod.rs:43-98) ---------- *)
 Definition info_is_eq_op (ti : token_info F) : bool :=
